@@ -53,6 +53,11 @@ theorem checks_before_file_system :
 why the model's `run` does not depend on `Input.ctx` (`context_irrelevant`) -/
 theorem context_unused_pinned : Facts.c13ContextUses = [] := by decide
 
+/-- the functions of the load path keep no state between calls: they write to no package-level
+variable and hand none on (reads, `slices.Contains` and `MatchString` aside), which is why the model's
+`run` does not depend on what other calls go on at the same time (`concurrency_irrelevant`) -/
+theorem no_shared_state_pinned : Facts.c13SharedState = [] := by decide
+
 /-- the store path is `truststore/x509/<type>/<name>` -/
 theorem store_dir_prefix_pinned : Facts.c13StoreDirPrefix = ["truststore", "x509"] := by decide
 
@@ -414,7 +419,7 @@ theorem entryOk_eq_entryLoadable (t : String) (e : Entry) : entryOk t e = entryL
       rw [all_and_all]
       congr 1; funext c
       simp only [acceptable, isRootCA]
-      cases c.isCA <;> cases c.selfSig <;> cases c.signOk <;> cases c.subjEqIssuer <;> decide
+      cases c.isCA <;> cases c.selfSig <;> cases c.signOk <;> cases c.subjEqIssuer <;> cases c.weakSig <;> decide
     rw [← this]
     cases (e.kind == EntryKind.file) <;> cases e.parseOk <;> cases e.certs.isEmpty <;>
       cases e.certs.all (fun c => c.isCA || c.selfSig) <;> cases e.certs.all isRootCA <;> decide
@@ -523,6 +528,12 @@ partial one or hide a bad entry. -/
 theorem context_irrelevant (i : Input) (c : CtxSpec) : run { i with ctx := c } = run i := by
   cases hop : i.op <;> simp [run, hop, getCertificates]
 
+/-- **C13, concurrent calls do not matter**: whatever other stores are being loaded (or paths
+computed) at the same time, the answer is the sequential one - in particular never the certificates
+of another store (`nothing_from_elsewhere`). -/
+theorem concurrency_irrelevant (i : Input) (p : ParSpec) : run { i with par := p } = run i := by
+  cases hop : i.op <;> simp [run, hop, getCertificates]
+
 /-- success is the complete set and failure is empty under every context -/
 theorem never_partial_whatever_context (i : Input) (c : CtxSpec) (h : i.op = .load) :
     ((run { i with ctx := c }).ok = true →
@@ -535,14 +546,16 @@ theorem never_partial_whatever_context (i : Input) (c : CtxSpec) (h : i.op = .lo
 the name is a valid file name, the store path is a real directory, the store is not empty and
 every entry is a regular file with at least one parseable certificate, each of them a CA or
 self-signed certificate and, in a tsa store, a self-signed root (own key may sign certificates,
-signature verifies under it, issuer = subject). -/
+signature verifies under it with an algorithm crypto/x509 still accepts in chains - not SHA-1 / MD5 -,
+issuer = subject). -/
 theorem load_ok_iff (i : Input) (h : i.op = .load) :
     (run i).ok = true ↔
       i.storeType ∈ ["ca", "signingAuthority", "tsa"] ∧ isValidFileName i.name = true ∧
       i.dirKind = .dir ∧ i.entries ≠ [] ∧
       ∀ e ∈ i.entries, e.kind = .file ∧ e.parseOk = true ∧ e.certs ≠ [] ∧
         ∀ c ∈ e.certs, (c.isCA = true ∨ c.selfSig = true) ∧
-          (i.storeType = "tsa" → c.selfSig = true ∧ c.signOk = true ∧ c.subjEqIssuer = true) := by
+          (i.storeType = "tsa" →
+            c.selfSig = true ∧ c.weakSig = false ∧ c.signOk = true ∧ c.subjEqIssuer = true) := by
   rw [run_load i h, isValidFileName_eq_plainName]
   have : (if loadable i then ({ ok := true, certs := expectedIds i, path := [] } : Obs) else { ok := false, certs := [], path := [] }).ok
       = loadable i := by cases loadable i <;> rfl
@@ -562,7 +575,7 @@ theorem load_ok_iff (i : Input) (h : i.op = .load) :
     intro ht
     rcases a2 with a2 | a2
     · exact absurd ht a2
-    · exact ⟨a2.1.1, a2.1.2, a2.2⟩
+    · exact ⟨a2.1.1.1, a2.1.1.2, a2.1.2, a2.2⟩
   · rintro ⟨h1, h2, h3, h5, h4⟩
     refine ⟨⟨⟨⟨h1, h2⟩, h3⟩, ?_⟩, h5⟩
     intro e he
@@ -572,8 +585,8 @@ theorem load_ok_iff (i : Input) (h : i.op = .load) :
     obtain ⟨a1, a2⟩ := k4 c hc
     refine ⟨a1, ?_⟩
     by_cases ht : i.storeType = "tsa"
-    · obtain ⟨b1, b2, b3⟩ := a2 ht
-      exact Or.inr ⟨⟨b1, b2⟩, b3⟩
+    · obtain ⟨b1, b2, b3, b4⟩ := a2 ht
+      exact Or.inr ⟨⟨⟨b1, b2⟩, b3⟩, b4⟩
     · exact Or.inl ht
 
 /-- **C13, load_exact**: on success the result is the concatenation, in ascending file-name order
@@ -680,14 +693,14 @@ theorem creation_order_irrelevant (i₁ i₂ : Input) (hop : i₁.op = i₂.op) 
 
 /-! ### non-vacuity -/
 
-def rootCA (id : Nat) : CertFlags := { id := id, isCA := true, selfSig := true, signOk := true, subjEqIssuer := true }
-def interCA (id : Nat) : CertFlags := { id := id, isCA := true, selfSig := false, signOk := true, subjEqIssuer := false }
-def leaf (id : Nat) : CertFlags := { id := id, isCA := false, selfSig := false, signOk := false, subjEqIssuer := false }
+def rootCA (id : Nat) : CertFlags := { id := id, isCA := true, selfSig := true, signOk := true, subjEqIssuer := true, weakSig := false }
+def interCA (id : Nat) : CertFlags := { id := id, isCA := true, selfSig := false, signOk := true, subjEqIssuer := false, weakSig := false }
+def leaf (id : Nat) : CertFlags := { id := id, isCA := false, selfSig := false, signOk := false, subjEqIssuer := false, weakSig := false }
 def pemFile (n : String) (cs : List CertFlags) : Entry :=
   { name := n.toList, kind := .file, parseOk := true, certs := cs, enc := "pem" }
 def store (t : String) (n : String) (es : List Entry) : Input :=
   { op := .load, storeType := t, name := n.toList, dirKind := .dir, entries := es, decoys := false,
-    ctx := { kind := .background, n := 0, deadline := false } }
+    par := { stores := [], workers := 0, rounds := 0 }, ctx := { kind := .background, n := 0, deadline := false } }
 
 /-- a store with two files created in reverse name order loads in name order -/
 example : run (store "ca" "acme.roots" [pemFile "b.pem" [interCA 2, rootCA 3], pemFile "a.pem" [rootCA 1]]) =
@@ -736,6 +749,23 @@ example : Holds { store "ca" "s" [pemFile "a.pem" [rootCA 1], pemFile "b.pem" [r
 example : Holds (store "ca" "s" [pemFile "a.pem" [rootCA 1], pemFile "b.pem" [rootCA 2]])
     { ok := false, certs := [], path := [] } = false := by decide
 
+/-- legacy signature algorithms: a SHA-1 signed true root loads in a ca store but not in a tsa store
+(its self-signature is not verifiable under the chain policy); a SHA-1 signed CA that is merely
+issued to its own name by another key must never load in a tsa store -/
+def sha1Root (id : Nat) : CertFlags := { rootCA id with weakSig := true }
+def sha1RollOver (id : Nat) : CertFlags := { rootCA id with weakSig := true, selfSig := false }
+example : (run (store "ca" "s" [pemFile "a.pem" [sha1Root 1]])).ok = true := by decide
+example : (run (store "tsa" "s" [pemFile "a.pem" [sha1Root 1]])).ok = false := by decide
+example : Holds (store "tsa" "s" [pemFile "a.pem" [sha1RollOver 1]])
+    { ok := true, certs := [1], path := [] } = false := by decide
+
+/-- concurrency: while two other stores are being loaded, an answer that is another store's
+certificate is rejected -/
+example : Holds { store "ca" "alpha" [pemFile "r.pem" [rootCA 1]] with
+      par := { stores := [{ storeType := "ca", name := "bravo".toList, entries := [pemFile "r.pem" [rootCA 2]] }],
+               workers := 8, rounds := 1000 } }
+    { ok := true, certs := [2], path := [] } = false := by decide
+
 /-- the store path of a proper name, and what the rejected names would have addressed: the type
 directory itself, its parent, a store of another type -/
 example : storeDir "ca" "acme.roots".toList = "truststore/x509/ca/acme.roots".toList := by decide
@@ -761,7 +791,7 @@ open NotationModel.Src.truststore
 /-- a certificate of the translated world as the model sees it -/
 def absCert (c : x509.Certificate) : CertFlags :=
   { id := c.id, isCA := c.IsCA, selfSig := c.selfSigErr.isNone, signOk := c.signOk,
-    subjEqIssuer := bytes.Equal c.RawSubject c.RawIssuer }
+    subjEqIssuer := bytes.Equal c.RawSubject c.RawIssuer, weakSig := c.weakSig }
 
 theorem typeTSA_agree : TypeTSA = "tsa" := by decide
 
@@ -881,7 +911,8 @@ theorem source_isRootCACertificate_refines_model (c : x509.Certificate) :
   unfold isRootCACertificate x509.Certificate.CheckSignatureFrom isRootCA absCert
   simp only [Id.run]
   have hcomm := bytes_equal_comm c.RawIssuer c.RawSubject
-  cases hso : c.signOk <;> cases hse : c.selfSigErr <;> cases heq : bytes.Equal c.RawSubject c.RawIssuer <;>
+  cases hso : c.signOk <;> cases hw : c.weakSig <;> cases hse : c.selfSigErr <;>
+    cases heq : bytes.Equal c.RawSubject c.RawIssuer <;>
     simp [GoLite.idPure, hcomm, heq]
 
 /-! #### GetCertificates -/
@@ -912,7 +943,8 @@ def absDirKind (ts : x509TrustStore) (w : World) (t n : String) : DirKind :=
 def absInput (ts : x509TrustStore) (w : World) (t n : String) : Input :=
   { op := .load, storeType := t, name := n.toList, dirKind := absDirKind ts w t n,
     entries := (w.ReadDir (srcPath ts t n).1).1.map (absEntry w (srcPath ts t n).1),
-    decoys := false, ctx := { kind := .background, n := 0, deadline := false } }
+    decoys := false, par := { stores := [], workers := 0, rounds := 0 },
+    ctx := { kind := .background, n := 0, deadline := false } }
 
 /-- result shape: the certificates as the model sees them, and "no error" -/
 def shape (r : List x509.Certificate × Option GoLite.Err) : List CertFlags × Bool :=
@@ -1139,7 +1171,7 @@ theorem source_GetCertificates_satisfies_property (ts : x509TrustStore) (w : Wor
 /-! non-vacuity: the translated functions run on concrete oracles -/
 def exRoot (k : Nat) : x509.Certificate :=
   { id := k, IsCA := true, RawSubject := [k], RawIssuer := [k], SignatureAlgorithm := 1, RawTBSCertificate := [k],
-    Signature := [k], signOk := true, selfSigErr := none }
+    Signature := [k], signOk := true, weakSig := false, selfSigErr := none }
 def exInter (k : Nat) : x509.Certificate := { exRoot k with RawIssuer := [0], selfSigErr := some ⟨"x509"⟩ }
 def exStore : x509TrustStore := ⟨⟨fun p => (p, none)⟩⟩
 /-- a real directory with two regular files, each holding the same two certificates -/
